@@ -18,6 +18,10 @@ func main() {
 	if len(os.Args) > 1 {
 		name = os.Args[1]
 	}
+	if name == "fail" {
+		os.Stderr.WriteString("vplug: failing on request\n")
+		os.Exit(1)
+	}
 	if len(os.Args) > 2 {
 		k, _ = strconv.Atoi(os.Args[2])
 	}
